@@ -21,6 +21,11 @@ pub broadcast proof fn axiom_str_key_maps<V>(m: Map<String, V>, k: &str, v: V)
 pub broadcast proof fn axiom_str_key_updated<V>(m1: Map<String, V>, m2: Map<String, V>, k: &str, v: V)
     ensures #[trigger] borrowed_key_updated::<String, V, str>(m1, m2, k, v) <==> (m1.contains_key(str_key(k@)) && m2 == m1.insert(str_key(k@), v))
 {}
+// the same for a lookup with the key type itself (Q = K = String)
+#[verifier::external_body]
+pub broadcast proof fn axiom_deref_key_updated<V>(m1: Map<String, V>, m2: Map<String, V>, k: &String, v: V)
+    ensures #[trigger] borrowed_key_updated::<String, V, String>(m1, m2, k, v) <==> (m1.contains_key(*k) && m2 == m1.insert(*k, v))
+{}
 pub broadcast group group_str_key {
     axiom_str_key, axiom_str_key_contains, axiom_str_key_maps, axiom_str_key_updated,
 }
